@@ -15,6 +15,30 @@ CHECKS = {
    text="All digraphs with self-loops on <=3 files and 4-file classes, all selections, modes Build/InMemoryBuild/Verify: in every completion order a selection that can reach a cycle yields Err (never Hang, never Ok), every required file outside the cycle's upstream closure equals the serial oracle afterwards, and an acyclic selection never fails.",
    ref="4.5, 5/C05", note=S_NOTE),
 }
+E_NOTE = ("Trusted: the reference model M (harness/src/model.rs, written from the README and bound to the implementation from both sides: every "
+          "enumerated case is executed on the real code, and M's grammar/tag sub-functions are themselves compared with the real detect_from/add_line/TagState "
+          "on larger spaces by C15/C14); sh for commands of the menu; inputs outside the stated alphabet and length bound are not covered.")
+E_TECH = "bounded-exhaustive enumeration of all inputs over a decision-point alphabet up to a length, every case executed on the real preprocess and compared with a reference state machine (model + conformance of all traces)"
+CHECKS.update({
+ "C01": dict(engine="E-lines", technique=E_TECH,
+   text="All sources of <=3 (quick) / <=5 (thorough) lines over a 20-symbol line alphabet chosen from the branches of the directive state machine (plus 4 run symbols to length 3/4), x LF/CRLF x final newline x trailing-newline option, each built by the real preprocess (first pass, final pass and in-memory mode for short ones) and compared byte for byte (output, temp target, verdict) with the parse-then-render reference interpreter on the documented domain (DESIGN 4.3).",
+   ref="4.2, 4.3, 4.7, 5/C01", note=E_NOTE),
+ "C12": dict(engine="E-lines", technique=E_TECH,
+   text="All sources of <=4/5 lines over 9 line shapes with every source line carrying its own terminator (LF/CRLF/none), included file in 4 line-ending variants and command output in 2: byte scan of output and temp target for any terminator other than the first line's.",
+   ref="4.7, 5/C12", note="Trusted: the byte-scan oracle needs no model; domain: CR only before LF. " + E_NOTE),
+ "C13": dict(engine="E-lines", technique=E_TECH,
+   text="The C01 source space built with the option on and off by the real preprocess: verdicts equal, temp targets equal, outputs equal or differing by exactly one final line ending, and exactly so when the source ends in an ordinary text line; plus the production CLI's -n flag on all sources of <=1/2 lines.",
+   ref="4.7, 5/C13", note=E_NOTE),
+ "C14": dict(engine="U-tag", technique="explicit-state BFS over the reference tag store; every model transition replayed on the real TagState and the resulting state probed; hash iteration orders observed exhaustively per order-sensitive transition",
+   text="BFS to depth 5/7 over the reference store (7 prefix-rich names, 6 contents incl. mixed newlines, all inject lines of <=4/5 chars over {a,b,-} x LF/CRLF): every transition of every reachable model state is executed on a real TagState rebuilt from the state's history; return value, resulting names and contents must agree, under every observed iteration order of the hash map. Whole files of <=4/5 lines over a 13-line tag alphabet are compared with M and repeated.",
+   ref="4.7, 5/C14", note="Trusted: the reference store (harness/src/tags.rs, an ordered map written from the property text). Hash order is observed via Display, not controlled (cap 200 tries per transition)."),
+ "C15": dict(engine="U-gram", technique=E_TECH,
+   text="Every line of <=4/5 tokens over a 16-token alphabet through the real Directive::detect_from, every (directive line, next line) pair through the real add_line, compared with a reference classifier/continuation matcher written from the property statement; end-to-end sources [l1,l2,END] through whole-file preprocess against M.",
+   ref="4.7, 5/C15", note=E_NOTE + " Q4 pairs (spaces form after a non-ASCII prefix) are excluded and counted."),
+ "C16": dict(engine="E-lines", technique=E_TECH,
+   text="All texts over 9 directive look-alike tokens (<=2 tokens x <=2/3 lines and <=3 tokens x <=1/2 lines): directive-free ones must be reproduced verbatim (LF/CRLF, final newline, option); every admissible text is round-tripped through its write-escape with and without a stored tag in scope; on the C01 space ordinary lines must appear in order.",
+   ref="4.7, 5/C16", note=E_NOTE),
+})
 NOT_YET = {}
 props = [json.loads(l) for l in open("/verif/properties.jsonl")]
 checks, na = [], []
@@ -47,6 +71,7 @@ m = {
    "add_only": True,
  },
  "engines": [
+   {"name": "E-lines / U-gram / U-tag", "path": "/verif/harness/src/model.rs, elines.rs, elines2.rs, gram.rs, tags.rs", "serves_properties": ["C01", "C12", "C13", "C14", "C15", "C16"], "kind_free_text": "bounded-exhaustive input enumeration against a reference state machine, all traces replayed on the real code"},
    {"name": "S", "path": "/verif/harness/src/ctl.rs, sched.rs", "serves_properties": ["C02", "C03", "C05"], "kind_free_text": "controlled scheduler behind txtpp's verif hooks + DFS over task completion orders on the real Txtpp::run"},
  ],
  "checks": checks,
